@@ -243,15 +243,15 @@ Proof.
     { unfold pkt. rewrite len_packet. pose proof (len_nonneg (flat_map enc_label ls)).
       pose proof (len_nonneg (flat_map dns_seg (chunks256 (length c) c))). destruct server; lia. }
     cbn [dns_decode_f].
-    destruct (pkt ++ dns_encode_f fuel server (flat_map enc_label ls) rnd (k + 1) (drop 2048 b)) as [|w0 wr] eqn:Ew.
-    { exfalso. destruct pkt; [rewrite len_nil in Hpl; lia | discriminate]. }
-    rewrite <- Ew in *. cbn [is_nil].
-    unfold pkt at 1. rewrite decode_packet_ok by assumption. cbn [bind]. fold pkt.
+    assert (Hnn : is_nil (pkt ++ dns_encode_f fuel server (flat_map enc_label ls) rnd (k + 1) (drop 2048 b)) = false).
+    { destruct pkt; [change (len (@nil Z)) with 0 in Hpl; lia | reflexivity]. }
+    rewrite Hnn.
+    unfold pkt. rewrite decode_packet_ok by assumption. fold pkt. cbn [bind].
     rewrite drop_app_exact by reflexivity.
     rewrite IH.
     + cbn [bind]. f_equal. apply take_drop.
     + unfold drop. rewrite skipn_length. change (Z.to_nat 2048) with 2048%nat. rewrite Eb in *. cbn [length] in *. lia.
-    + rewrite Ew, app_length in Hf'. unfold len in Hpl. lia.
+    + rewrite app_length in Hf'. unfold len in Hpl. lia.
 Qed.
 
 (* for EVERY domain (any bytes, any dots), both roles, every random draw, every payload *)
